@@ -15,11 +15,13 @@ CONSTANTS Family,      \* "teval" | "events" | "events2" | "termteval" | "fstep"
           Grids,       \* set of grids in ticks
           MaxT,        \* max number of requested times
           MaxRoots,    \* max roots per event function
+          KAll,        \* TRUE: every budget stop 0..m ; FALSE: only the full run and the stop after the first step
           Known        \* set of <<prop, clause>> the model is allowed to fail (known findings), see cfg
 
 VARIABLES sc, K, hs, hsA, hsN, k, pc
 vars == <<sc, K, hs, hsA, hsN, k, pc>>
 
+TermDirs == IF KAll THEN {"All", "Neg"} ELSE {"All"}
 Scale(g) == [j \in 1..Len(g) |-> g[j] * U]
 PosOf(g) == 0..g[Len(g)]                                  \* tick positions inside the span
 
@@ -45,12 +47,12 @@ ScenariosOf(g) ==
                  e \in EvFns(PosOf(g), MaxRoots, {"All", "Pos", "Neg"}, {0, 1, 2}), d \in {TRUE} }
       [] Family = "events2" ->
             { [Base(g) EXCEPT !.evs = <<e1, e2>>] :
-                 e1 \in EvFns(PosOf(g), 1, {"All", "Pos"}, {0, 1}),
+                 e1 \in { e \in EvFns(PosOf(g), 1, {"All", "Pos"}, {0, 1}) : e.sgn = 1 },
                  e2 \in EvFns(PosOf(g), MaxRoots, {"All", "Neg"}, {0, 1}) }
       [] Family = "termteval" ->
             { [Base(g) EXCEPT !.hasT = TRUE, !.teval = Scale(s), !.evs = <<e>>] :
                  s \in NonDecSeqs(PosOf(g), MaxT),
-                 e \in EvFns(PosOf(g), MaxRoots, {"All", "Neg"}, {1, 2}) }
+                 e \in EvFns(PosOf(g), MaxRoots, TermDirs, {1, 2}) }
       [] Family = "fstep" ->
             { [Base(g) EXCEPT !.hasFs = TRUE, !.fs = f * U, !.fsMatch = fm, !.evs = ev] :
                  f \in 1..g[Len(g)], fm \in BOOLEAN,
@@ -63,7 +65,7 @@ NoTerm(s) == [s EXCEPT !.evs = [i \in 1..Len(s.evs) |-> [s.evs[i] EXCEPT !.term 
 Flip(s)   == [s EXCEPT !.dense = ~s.dense]
 
 Init == /\ sc \in Scenarios
-        /\ K \in 0..(Len(sc.grid) - 1)            \* how many accepted steps the stepper delivers (budget stop)
+        /\ K \in (IF KAll THEN 0..(Len(sc.grid) - 1) ELSE {Len(sc.grid) - 1, 1} \cap 0..(Len(sc.grid) - 1))   \* accepted steps delivered (budget stop)
         /\ hs = HInit(sc) /\ hsA = HInit(sc) /\ hsN = HInit(sc)
         /\ k = 0 /\ pc = "run"
 
@@ -108,6 +110,11 @@ NeverInterrupt == ~(pc = "done" /\ hs.flag = "Interrupt")
 Grids_q == { <<0, 4, 8, 12>>, <<0, 4, 7>>, <<0, 5>> }
 Grids_t == { <<0, 4, 8, 12>>, <<0, 4, 7>>, <<0, 5>>, <<0, 2, 5, 8>>, <<0, 3, 5>>, <<0, 6, 8, 14>> }
 Grids_q2 == { <<0, 4, 8>>, <<0, 5>> }
+\* steps of 6-7 ticks: roots 3 or more ticks away from both step ends are refined by the real Brent code
+Grids_ev == { <<0, 6, 13>>, <<0, 7>> }
+Grids_ev1 == { <<0, 6, 13>> }
+Grids_evt == { <<0, 6, 13>>, <<0, 7>>, <<0, 4, 10, 17>>, <<0, 2, 9>> }
+
 Grids_t2 == { <<0, 4, 8, 12>>, <<0, 4, 7>>, <<0, 5>>, <<0, 2, 5>> }
 Known_none == {}
 
